@@ -34,7 +34,7 @@ VARIANTS = {
 
 SAN_ENV = {
     'ASAN_OPTIONS': 'abort_on_error=1:detect_leaks=0:allocator_may_return_null=1:handle_abort=1:'
-                    'detect_stack_use_after_return=0:max_allocation_size_mb=2048',
+                    'detect_stack_use_after_return=0:max_allocation_size_mb=2048:quarantine_size_mb=64',   # 64 MiB of freed blocks held back per process (default 256): 16+ monitor processes run side by side
     'UBSAN_OPTIONS': 'print_stacktrace=1:halt_on_error=1:abort_on_error=1',
     'TSAN_OPTIONS': 'halt_on_error=0:second_deadlock_stack=1:exitcode=66',
 }
